@@ -121,7 +121,11 @@ impl GenerationPass for AvailableValuePass {
         let mut visited = HashSet::new();
         while changed {
             changed = false;
+            #[cfg(rajanmaghera_riscv_analysis_verif)]
+            crate::verif_hooks::sweep(crate::verif_hooks::Pass::Available);
             for node in cfg.iter() {
+                #[cfg(rajanmaghera_riscv_analysis_verif)]
+                crate::verif_hooks::visit();
                 // in[n] = AND out[p] for all p in prev[n]
                 let in_reg_n = node
                     .prevs()
